@@ -87,7 +87,9 @@ constexpr bool kDropping = (SimFrontendOptions::queue_type == quill::QueueType::
 constexpr size_t kCap = kBounded ? SIM_INITIAL_CAP : SIM_MAX_CAP; // the largest buffer a statement may have to fit
 constexpr size_t kInitCap = SIM_INITIAL_CAP;
 constexpr size_t kHeader = 8 + 3 * sizeof(uintptr_t);            // timestamp + metadata + logger + decoder
-constexpr size_t kStmtFixed = kHeader + 2 + 4 + 4;               // + uint16 worker + uint32 seq + string length field
+// + uint16 worker + uint32 seq + padding: a std::string (4-byte length field) on blocking flavours, a C string (terminator;
+// its length travels through the per-thread size cache, whose state after a DROPPED statement matters) on dropping flavours
+constexpr size_t kStmtFixed = kHeader + 2 + 4 + (kDropping ? 1 : 4);
 
 Params g_params;
 std::string g_prop = "C03";
